@@ -59,18 +59,24 @@ func VerifC19Inspect(p *Pool) VerifC19View {
 	return v
 }
 
-// VerifC19Keys lists the raw database keys under the pending and the committed prefix (prefix stripped).
+// VerifC19Keys lists the raw database keys under the pending and the committed prefix (prefix stripped),
+// in one pass over the prefix the two have in common.
 func VerifC19Keys(p *Pool) (pending, committed []string) {
-	for _, c := range []struct {
-		prefix string
-		out    *[]string
-	}{{baseKeyPending, &pending}, {baseKeyCommitted, &committed}} {
-		it := p.evidenceDB.NewIterator([]byte(c.prefix), nil)
-		for it.Next() {
-			*c.out = append(*c.out, string(it.Key()[len(c.prefix):]))
-		}
-		it.Release()
+	n := 0
+	for n < len(baseKeyPending) && n < len(baseKeyCommitted) && baseKeyPending[n] == baseKeyCommitted[n] {
+		n++
 	}
+	it := p.evidenceDB.NewIterator([]byte(baseKeyPending[:n]), nil)
+	for it.Next() {
+		k := string(it.Key())
+		switch {
+		case len(k) >= len(baseKeyPending) && k[:len(baseKeyPending)] == baseKeyPending:
+			pending = append(pending, k[len(baseKeyPending):])
+		case len(k) >= len(baseKeyCommitted) && k[:len(baseKeyCommitted)] == baseKeyCommitted:
+			committed = append(committed, k[len(baseKeyCommitted):])
+		}
+	}
+	it.Release()
 	return pending, committed
 }
 
